@@ -30,22 +30,26 @@ func init() {
 	}
 }
 
+type gk struct {
+	sa   int
+	from string
+	b    string
+}
+
 type c02State struct {
-	genuine map[string]bool // "sa/from/" + bytes
+	genuine map[gk]bool
 }
 
 func c02st(w *World) *c02State {
 	st, _ := w.ext["c02"].(*c02State)
 	if st == nil {
-		st = &c02State{genuine: map[string]bool{}}
+		st = &c02State{genuine: map[gk]bool{}}
 		w.ext["c02"] = st
 	}
 	return st
 }
 
-func gKey(sa int, from string, b []byte) string {
-	return fmt.Sprintf("%d/%s/", sa, from) + string(b)
-}
+func gKey(sa int, from string, b []byte) gk { return gk{sa, from, string(b)} }
 
 func c02Send(c *sendCtx) {
 	if c.res.class() != "ok" || c.s.NilKey {
@@ -179,16 +183,7 @@ func opSweep(w *World, s *Step) (string, string) {
 		obs, _ := opDeliver(w, &sub)
 		w.pendingExpand = nil
 		w.stats.inc("events")
-		switch {
-		case len(obs) >= 2 && obs[:2] == "ok":
-			counts["ok"]++
-		case len(obs) >= 3 && obs[:3] == "err":
-			counts["err"]++
-		case len(obs) >= 5 && obs[:5] == "panic":
-			counts["panic"]++
-		default:
-			counts["noop"]++
-		}
+		counts[obs]++
 	}
 	w.stats.inc("sweep_" + s.Sweep)
 	out := fmt.Sprintf("%s:n=%d:ok=%d:err=%d:panic=%d", s.Sweep, hi-lo, counts["ok"], counts["err"], counts["panic"])
